@@ -1,3 +1,50 @@
-import EspadaVerif.Model.Range
+/-
+C12 — A range splits exactly into complete rank pairs and leftover combos.
+The range is any insert history (keys need not even be canonical combos); weights come from a domain on
+which `f32 ==` is equality (`TextDefs.WTextOk.eq_iff`).
+-/
+import EspadaVerif.Lemmas.TextDefs
+
 namespace EspadaVerif.C12
+open EspadaVerif TextDefs
+
+variable {W : Type}
+
+/-- **C12 (rank pairs).** A rank pair is reported with weight `w` exactly when it is canonical and all of its
+6 / 4 / 12 combos are present with that same weight `w`. -/
+theorem C12_report (wt : WText W) (inDom : W → Prop) (hok : WTextOk wt inDom) (r : HandRange W)
+    (hr : ∀ e ∈ r, inDom e.2) :
+    ∃ l, rankPairs wt r = .ok l ∧
+      ∀ rp w, rpLookup l rp = some w ↔ (RankPair.canonical rp ∧ ∀ c ∈ rp.combos, r.lookup c = some w) := by
+  sorry
+
+/-- **C12 (leftovers).** The leftover view holds exactly the combos not covered by a reported rank pair, with their
+own weights. -/
+theorem C12_orphans (wt : WText W) (inDom : W → Prop) (hok : WTextOk wt inDom) (r : HandRange W)
+    (hr : ∀ e ∈ r, inDom e.2) :
+    ∃ l o, rankPairs wt r = .ok l ∧ orphans wt r = .ok o ∧
+      ∀ c, ((∃ rp w, rpLookup l rp = some w ∧ c ∈ rp.combos) → o.lookup c = none)
+         ∧ ((∀ rp w, rpLookup l rp = some w → c ∉ rp.combos) → o.lookup c = r.lookup c) := by
+  sorry
+
+/-- different canonical rank pairs have no combo in common -/
+theorem C12_disjoint (rp rp' : RankPair) (h : RankPair.canonical rp) (h' : RankPair.canonical rp') (c : Combo)
+    (hc : c ∈ rp.combos) (hc' : c ∈ rp'.combos) : rp = rp' := by
+  sorry
+
+/-- **C12 (cover).** Every combo of the range lies in exactly one of the two views, with its weight: either it is a
+leftover, or exactly one reported rank pair contains it (and carries its weight). -/
+theorem C12_cover (wt : WText W) (inDom : W → Prop) (hok : WTextOk wt inDom) (r : HandRange W)
+    (hr : ∀ e ∈ r, inDom e.2) :
+    ∃ l o, rankPairs wt r = .ok l ∧ orphans wt r = .ok o ∧
+      ∀ c w, r.lookup c = some w →
+        (o.lookup c = some w ∧ ∀ rp w', rpLookup l rp = some w' → c ∉ rp.combos)
+        ∨ (o.lookup c = none ∧ ∃ rp, rpLookup l rp = some w ∧ c ∈ rp.combos
+             ∧ ∀ rp' w', rpLookup l rp' = some w' → c ∈ rp'.combos → rp' = rp) := by
+  sorry
+
+/-- the combo counts of the three kinds of rank pair -/
+theorem C12_sizes : (RankPair.pocket 9).combos.length = 6 ∧ (RankPair.suited 3 4).combos.length = 4
+    ∧ (RankPair.ofsuit 7 12).combos.length = 12 := by decide
+
 end EspadaVerif.C12
